@@ -337,6 +337,7 @@ fn gen_scenario(r: &mut Rng, max_utxos: u64) -> Case {
     let strat = r.below(4) as u8;
     let (fee_a, fee_b) = *r.pick(&[(44u64, 155_381u64), (44, 155_381), (44, 155_381), (0, 0), (1, 0), (500, 1_000_000)]);
     let multi = family >= 45 && family < 85;
+    let strat = if multi && strat < 2 && !r.chance(1, 6) { strat + 2 } else { strat };
     let edge = family >= 92;
     let style = if edge { 4 } else { r.below(4) };
     let lo = if r.chance(1, 12) { 0 } else { 3 };
@@ -411,7 +412,26 @@ fn gen_scenario(r: &mut Rng, max_utxos: u64) -> Case {
         if !pre.is_empty() && r.chance(1, 2) { offered[j].id = pre[0].id; offered[j].addr = pre[0].addr.clone(); offered[j].val = pre[0].val.clone(); }
         else { let k = r.below(offered.len() as u64) as usize; let src = offered[k].clone(); offered[j] = src; }
     }
-    Case { label: format!("f{}", family / 10), strat, fee_a, fee_b, cpb, offered, pre, implicit, mint, outs, deposit, burn, donation, choices: vec![] }
+    let mut c = Case { label: format!("f{}", family / 10), strat, fee_a, fee_b, cpb, offered, pre, implicit, mint, outs, deposit, burn, donation, choices: vec![] };
+    // pre-step boundary: no input yet, the implicit input covers outputs + fee exactly (plus a small delta), and the
+    // UTxO the pre-step takes (the last offered one) is worth about as much as its own fee
+    if family % 15 == 7 && !c.offered.is_empty() {
+        c.label = "ps".to_string();
+        c.pre.clear();
+        let need: u128 = c.outs.iter().map(|o| o.val.coin as u128).sum::<u128>() + c.deposit as u128 + c.donation.unwrap_or(0) as u128;
+        if need < (1u128 << 62) {
+            c.implicit = need as u64 + 200_000;
+            for _ in 0..3 {
+                if let Ok(tb) = builder(&c, &[]) {
+                    if let Ok(f) = tb.min_fee() { let f: u64 = f.into(); c.implicit = need as u64 + f; }
+                }
+            }
+            c.implicit += *r.pick(&[0u64, 0, 1, 1000, 5000, 10_000]);
+            let last = c.offered.len() - 1;
+            c.offered[last].val.coin = *r.pick(&[0u64, 1, 1000, 3000, 6000, 7000, 10_000, 1_000_000]);
+        }
+    }
+    c
 }
 
 fn gen_choices(r: &mut Rng) -> Vec<u64> {
